@@ -101,7 +101,11 @@ if __name__ == '__main__':
         ids = sys.argv[2:] or sorted(d for d in os.listdir(f'{V}/seeded') if os.path.isdir(f'{V}/seeded/{d}'))
         if sys.argv[1] == 'fast':
             r = fast(ids)
-            json.dump(r, open(f'{V}/seeded/RESULTS.fast.json', 'w'), indent=1)
+            out = f'{V}/seeded/RESULTS.fast.json'
         else:
             r = run(ids)
-            json.dump(r, open(f'{V}/seeded/RESULTS.json', 'w'), indent=1)
+            out = f'{V}/seeded/RESULTS.json'
+        if sys.argv[2:] and os.path.exists(out):
+            # a partial run updates the recorded results of the named seeds only
+            r = {**json.load(open(out)), **r}
+        json.dump(dict(sorted(r.items())), open(out, 'w'), indent=1)
